@@ -220,3 +220,39 @@ func VH_C12_IndentTemplate() {
 	vhCheckFormat(src)
 	vReach("tpl/done")
 }
+
+// vhHoleOf returns 0..max symbolic bytes drawn from the given alphabet.
+func vhHoleOf(max int, alphabet string) []byte {
+	n := vInt("holelen")
+	vAssume(vAnd(n >= 0, n <= max))
+	n = vConc(n)
+	b := vBytes("hole", n)
+	for _, c := range b {
+		ok := false
+		for _, a := range []byte(alphabet) {
+			if c == a {
+				ok = true
+			}
+		}
+		vAssume(ok)
+	}
+	return b
+}
+
+// VH_C12_IndentCooked: a cooked string or character literal with symbolic contents over
+// {backslash, the quote, the other quote, x, blank}, followed by symbolic text that the indenter
+// treats specially ({ ( / * ` blank): escapes decide where the literal ends.
+func VH_C12_IndentCooked() {
+	q := []byte{'"', '\''}[vParam("QUOTE")]
+	var src []byte
+	src = append(src, 'x', q)
+	src = append(src, vhHoleOf(vParam("HOLE"), "\\\"'x ")...)
+	src = append(src, q)
+	src = append(src, vhHoleOf(2, " {(/*`")...)
+	if !vhClosed(src) {
+		vReach("cooked/not-closed")
+		return
+	}
+	vhCheckFormat(src)
+	vReach("cooked/done")
+}
